@@ -511,7 +511,10 @@ impl<'a> DebugWithDb<'a> for GeneratedFunction<'a> {
                     func_ptr.kind(db),
                     SyntaxKind::FunctionWithBody | SyntaxKind::TraitItemFunction
                 ) {
-                    func_ptr = func_ptr.parent(db)
+                    // A loop inside the expansion of an inline macro (e.g. `array![{ for .. }]`) has
+                    // no enclosing function in its (virtual) file - use the root of that file.
+                    let Some(parent) = func_ptr.0.parent(db) else { break };
+                    func_ptr = cairo_lang_syntax::node::ids::SyntaxStablePtrId(parent);
                 }
 
                 let span = expr_ptr.0.lookup(db).span(db);
